@@ -88,7 +88,24 @@ func c17Spoof() *explore.Scenario {
 				{"case-variant", func() *env.Rpc { return c17Msg(6, "A", "b") }, false},
 			}
 			v := variants[vsched.Choose(len(variants))]
-			if err := peers["a"].A.Inject(v.mk()); err != nil {
+			// the routing fields the sender controls besides the source: none of them may make a spoofed envelope acceptable
+			routes := []struct {
+				name string
+				set  func(r *env.Rpc)
+			}{
+				{"plain", func(r *env.Rpc) {}},
+				{"with-route-record", func(r *env.Rpc) { r.Header.ProxyRecord = []string{"proxy:0"} }},
+				{"with-own-name-in-record", func(r *env.Rpc) { r.Header.ProxyRecord = []string{"a"} }},
+				{"with-return-route", func(r *env.Rpc) { r.Header.ProxyNext = []string{"b"} }},
+				{"with-record-and-return-route", func(r *env.Rpc) { r.Header.ProxyRecord = []string{"x", "a"}; r.Header.ProxyNext = []string{"b"} }},
+			}
+			rt := routes[vsched.Choose(len(routes))]
+			first := v.mk()
+			if first.Header != nil {
+				rt.set(first)
+			}
+			v.name += "/" + rt.name
+			if err := peers["a"].A.Inject(first); err != nil {
 				vsched.Fail(fam+"|harness", "%v", err)
 				return
 			}
